@@ -369,13 +369,15 @@ func createSelectFieldFromByItem(p *SelectPlan, item *ast.ByItem) (*ast.SelectFi
 		return nil, err
 	}
 
+	ret := &ast.SelectField{
+		Expr: columnExpr,
+	}
 	if need {
 		decorator := CreateColumnNameExprDecorator(columnExpr, rule, isAlias, p.GetRouteResult())
 		item.Expr = decorator
-	}
-
-	ret := &ast.SelectField{
-		Expr: columnExpr,
+		// the helper column appended to the select list must be rewritten like the
+		// ORDER BY / GROUP BY item it mirrors (database and table name of the shard)
+		ret.Expr = decorator
 	}
 	return ret, nil
 }
